@@ -66,6 +66,10 @@ func derivesFromValue(v ssa.Value, root ssa.Value) bool {
 			return walk(w.X, d+1) || walk(w.Y, d+1)
 		case *ssa.MakeInterface:
 			return walk(w.X, d+1)
+		case *ssa.TypeAssert:
+			return walk(w.X, d+1)
+		case *ssa.ChangeInterface:
+			return walk(w.X, d+1)
 		}
 		return false
 	}
